@@ -127,6 +127,11 @@ class Run:
     # ----- finish -----------------------------------------------------------
     def finish(self, error=None):
         wall = time.time() - self.t0
+        global EVID, REPLAYS
+        if os.environ.get("CUQIVERIF_REPO", "/repo") != "/repo":
+            # development runs against a scratch worktree (seeded changes) must not overwrite the evidence of /repo
+            EVID = os.path.join(ROOT, ".work", "evidence-dev")
+            REPLAYS = os.path.join(ROOT, ".work", "replays-dev")
         os.makedirs(EVID, exist_ok=True)
         os.makedirs(REPLAYS, exist_ok=True)
         lines = []
